@@ -102,8 +102,8 @@ CLAIMS = {
     "C13": dict(
         text="Decides structural clauses of C13 on Compactor::compact: R13.1 the per-key fold must combine with ReplicatedValue::merge "
              "(known finding: keeps newest-by-time); R13.2 no comparison mixes wall-clock and Lamport time (known finding); R13.4 "
-             "manifest read-modify-write must be re-validated before save (4 known findings incl. flush); R13.5 failed fetch/decode "
-             "never schedules a segment for removal (2 known findings); R13.6 manifest entries are dropped by membership in the id "
+             "manifest read-modify-write must be re-validated before save (4 known findings incl. flush); R13.5 a failed fetch or decode "
+             "never schedules a segment for removal, except a fetch that failed with ErrorKind::NotFound (both former findings are fixed); R13.6 manifest entries are dropped by membership in the id "
              "list derived from the folded segments; R13.7 tombstones are judged on the folded map only. Does not decide state equality.",
         technique="MIR call/provenance analysis across closure captures, wall-clock vs logical-time provenance typing, path search from failure edges",
         ref="DESIGN.md §3 C13"),
@@ -118,8 +118,8 @@ CLAIMS = {
         ref="DESIGN.md §3 C11"),
     "C06": dict(
         text="Decides the glue clauses of C06 between executor and replication state: R06.1 recorded deltas must come from the "
-             "executor's post-state (3 known findings: SET x2, HSET); R06.2 re-materialisation replies must be inspected (8 known "
-             "findings); R06.3 remote ingest = clock update + merge when a local value exists; R06.5 after the merge, executor updates "
+             "executor's post-state (3 known findings: SET x2, HSET); R06.2 the reply of a re-materialising command that can fail (decided from its handler's error sites and the "
+             "options its constructor fixes) must be inspected (5 known findings: HSET/HDEL/SETEX); R06.3 remote ingest = clock update + merge when a local value exists; R06.5 after the merge, executor updates "
              "are decided from the merged value only (no stale-delta shortcut); R06.6 stamps are never ordered by .time alone. Does not "
              "decide convergence over delivery schedules.",
         technique="MIR value provenance (post-state vs command operand), unused-result detection, branch-condition root analysis, comparison-shape scan",
@@ -150,7 +150,8 @@ CLAIMS = {
              "a reason and a checked side condition (e.g. should_flush not reachable, the command never constructed by a harness); "
              "R20.2 every RNG is seed_from_u64(parameter); R20.3 rule H: no HashMap/HashSet iteration feeds an unsorted Vec, a shared "
              "hasher, a first-element pick or a per-element RNG draw (8 frozen, reasoned exceptions); R20.4 the event queue is a "
-             "BinaryHeap ordered by virtual time. Does not compare traces across processes.",
+             "BinaryHeap ordered by virtual time. The quick tier analyses the default and the simulation-feature configuration. Does not "
+             "compare traces across processes.",
         technique="call-graph reachability over resolved callees with path witnesses, dataflow from unordered iterations to order-sensitive sinks (rule H), conditional exception table",
         ref="DESIGN.md §3 C20"),
     "C02": dict(
